@@ -7,7 +7,7 @@
    o of the concatenation (tagged with the index of the extent file).  Gen.VmdkTables holds the
    alternatives of RE_EXTENT_DESCRIPTOR and the two type lists of VMDK.__init__ as they are in the source. *)
 From Coq Require Import ZArith List.
-From DH Require Import Base.Plan Base.Table Model.Vmdk Model.VmdkDesc Proofs.Vmdk Proofs.VmdkDesc Proofs.Storage.
+From DH Require Import Base.Plan Base.Table Model.Vmdk Model.VmdkDesc Proofs.Vmdk Proofs.VmdkDesc Proofs.Storage Proofs.VmdkTotal.
 From DH Require Import Model.Chain Proofs.Chain Model.Hdd Proofs.Hdd.
 Import ListNotations.
 Open Scope Z_scope.
@@ -77,6 +77,17 @@ Theorem C10_multi_read_correct :
   xsrcs_of p = map (concat_src (v_disks (mk_vmdk xs)) 0) (zseq (sector * 512) (count * 512)).
 Proof. exact multi_read_correct. Qed.
 Print Assumptions C10_multi_read_correct.
+
+(* 5b. ... and such a read succeeds: for a disk assembled from well-formed extents (sparse extents whose tables
+       cover their capacity, flat extents) every request that stays inside the disk returns — no IndexError at
+       an extent boundary or at the last sector, however many extents it crosses *)
+Theorem C10_multi_read_total :
+  forall xs sector count,
+  Forall (fun x => 0 < x_sectors x /\ 0 < x_size x) xs -> Forall x_total xs ->
+  0 <= sector -> 0 <= count -> sector + count <= sum_sectors xs -> sector < sum_sectors xs ->
+  exists p, vmdk_read_sectors (mk_vmdk xs) sector count = Ok p.
+Proof. exact multi_read_total. Qed.
+Print Assumptions C10_multi_read_total.
 
 (* 6. Parallels StorageStream (disk/hdd.py): storages [start, end) laid back to back from sector s0.
       The size is the end of the last storage; a read at any sector across any number of storage
